@@ -18,11 +18,14 @@
 EXTENDS Integers, Sequences, FiniteSets, TLC, Json, IOUtils, SequencesExt
 
 CONSTANTS Cfgs,      \* set of sub-domains [sib |-> sibling leaf paths next to "a",
-                     \*                     sub |-> leaf paths below the directory "a", vals |-> leaf values];
+                     \*                     sub |-> leaf paths below the directory "a", vals |-> leaf values,
+                     \*                     ren |-> TRUE: rename detection is also run with every option record];
                      \* all pairs of trees *within* one sub-domain are enumerated (see MCDiffTree.tla)
           Emit       \* TRUE: write difftree_rows.ndjson
 
 Below == {"a/b", "a/c"}                       \* every path below the directory "a" used by any sub-domain
+\* (a sub-domain with ren = TRUE and a single file value has the same content at several old and
+\*  several new paths: e.g. {a.b, a} -> {a0, a/b} deletes two and adds two copies of one blob)
 TreesOf(c) == {t \in [c.sib \cup {"a"} \cup c.sub -> c.vals \cup {"-"}] : t["a"] = "-" \/ \A p \in c.sub : t[p] = "-"}
 Pairs == UNION {TreesOf(c) \X TreesOf(c) : c \in Cfgs}
 ASSUME \A c \in Cfgs : c.sub \subseteq Below /\ c.sib \cap (Below \cup {"a"}) = {}
@@ -56,16 +59,33 @@ Split(o) ==
   ELSE {[p |-> o.fp, k |-> "del", f |-> o.f, t |-> "-"], [p |-> o.tp, k |-> "ins", f |-> "-", t |-> o.t]}
 Expand(out) == UNION {Split(out[i]) : i \in 1..Len(out)}
 PathsUsed(out) == [i \in 1..Len(out) |-> {out[i].fp, out[i].tp} \ {""}]
+\* The options of the detector (object.DiffTreeOptions with DetectRenames on): RenameLimit bounds the
+\* candidate matrix (0 = no limit), OnlyExactRenames switches the similarity pass off, RenameScore is the
+\* similarity threshold.  They may change WHICH deletions and insertions are paired, never WHETHER the
+\* output is a re-pairing of the plain diff: Admissible does not depend on them (AdmissibleUnder).
+DefaultOpts == [limit |-> 0, exact |-> FALSE, score |-> 60]
+RenameOpts  == {DefaultOpts, [limit |-> 1, exact |-> FALSE, score |-> 60], [limit |-> 3, exact |-> FALSE, score |-> 60],
+                [limit |-> 1, exact |-> TRUE, score |-> 60]}
+OptClass(o) == (IF o.limit = 0 THEN "limit=0" ELSE "limit>0") \o (IF o.exact THEN ",exact" ELSE "") \o
+               (IF o.score = 60 THEN "" ELSE ",score")
 Admissible(A, B, out) ==
   LET pu == PathsUsed(out)
       ex == Expand(out)
   IN /\ ex = Diff(A, B)
      /\ \A i, j \in 1..Len(out) : i # j => pu[i] \cap pu[j] = {}
-     /\ Apply(A, ex) = B
+\* (hence Apply(A, Expand(out)) = B: theorem Complete below, checked on every pair of the domain)
+
+AdmissibleUnder(o, A, B, out) == o \in RenameOpts /\ Admissible(A, B, out)
+
+\* the option records rename detection is run with for a pair: the detector only acts when the plain
+\* diff has a deletion and an insertion; elsewhere (and outside the ren sub-domains) the default suffices
+HasDelIns(A, B) == (Present(A) \ Present(B) # {}) /\ (Present(B) \ Present(A) # {})
+RenPairs == UNION {TreesOf(c) \X TreesOf(c) : c \in {x \in Cfgs : x.ren}}
+OptsFor(A, B) == IF <<A, B>> \in RenPairs /\ HasDelIns(A, B) THEN RenameOpts ELSE {DefaultOpts}
 
 \* ---------------------------------------------------------------- the table
 SetSeq(S) == SetToSortSeq(S, LAMBDA a, b : TRUE)
-Row(A, B) == [a |-> A, b |-> B, diff |-> SetSeq(Diff(A, B))]
+Row(A, B) == [a |-> A, b |-> B, diff |-> SetSeq(Diff(A, B)), opts |-> SetSeq(OptsFor(A, B))]
 
 ASSUME Emit => LET ps == SetToSeq(Pairs)
                IN ndJsonSerialize("difftree_rows.ndjson", [i \in 1..Len(ps) |-> Row(ps[i][1], ps[i][2])])
@@ -94,4 +114,19 @@ NoRenameAdmissible ==
                 LET c == SetSeq(d)[i] IN
                 [fp |-> IF c.k = "ins" THEN "" ELSE c.p, tp |-> IF c.k = "del" THEN "" ELSE c.p, f |-> c.f, t |-> c.t]]
   IN Admissible(ta, tb, out)
+\* whatever the options make the detector pair: EVERY re-pairing of deletions with insertions (any
+\* partial injection, however dissimilar the contents) expands to exactly the plain diff, and an output
+\* that drops the insertions of a group it gave up on (or their deletions) never does
+Dels == {c \in d : c.k = "del"}
+Inss == {c \in d : c.k = "ins"}
+Matchings == UNION {{m \in [S -> Inss] : \A x, y \in S : x # y => m[x] # m[y]} : S \in SUBSET Dels}
+OutOf(m) ==
+  LET ren  == {[fp |-> c.p, tp |-> m[c].p, f |-> c.f, t |-> m[c].t] : c \in DOMAIN m}
+      used == DOMAIN m \cup {m[c] : c \in DOMAIN m}
+      rest == {[fp |-> IF c.k = "ins" THEN "" ELSE c.p, tp |-> IF c.k = "del" THEN "" ELSE c.p, f |-> c.f, t |-> c.t] : c \in d \ used}
+  IN SetSeq(ren \cup rest)
+AnyRepairingAdmissible == \A o \in OptsFor(ta, tb) : \A m \in Matchings : AdmissibleUnder(o, ta, tb, OutOf(m))
+DroppingIsInadmissible == \A m \in Matchings : \A c \in d :
+   LET out == OutOf(m) IN
+   ~Admissible(ta, tb, SelectSeq(out, LAMBDA o : ~(c.p \in {o.fp, o.tp})))
 =============================================================================
